@@ -46,6 +46,10 @@ pub struct C10Case {
 	/// all items in one instant (true) or 1 ms apart (false)
 	pub same_instant: bool,
 	pub sched: u8,
+	/// gated mode with a running process: the process exits by itself in the middle of the gate, so that its
+	/// exit is waiting to be collected at the very moment the task looks at its queues again
+	#[serde(default)]
+	pub exit_in_gate: bool,
 }
 
 const SETTLE: u32 = 20_000;
@@ -110,7 +114,7 @@ fn build(c: &C10Case) -> Built {
 	Built {
 		case: JobCase {
 			sim: SimSpec {
-				children: vec![ChildSpec { self_exit: None, code: 0, react: React::Ignore }],
+				children: vec![ChildSpec { self_exit: if c.exit_in_gate && c.mode == 0 && c.running { Some(SETTLE + GATE / 2) } else { None }, code: 0, react: React::Ignore }],
 				..Default::default()
 			},
 			steps,
@@ -235,6 +239,9 @@ pub fn run(c: &C10Case) -> Outcome {
 					let expected = if !c.running {
 						// previous run finished: resolves at once, whatever normal controls are queued
 						Some(b.release)
+					} else if c.exit_in_gate {
+						// the process ended during the gate: whether its exit or the to_wait is taken first, the wait is over at release
+						Some(b.release)
 					} else if has_stop {
 						// waits for the running process, which the queued stop then kills in the same instant
 						Some(b.release)
@@ -296,12 +303,13 @@ fn strategy() -> BoxedStrategy<C10Case> {
 		(v, with_stop)
 	});
 	prop_oneof![
-		3 => (0u8..3, any::<bool>(), plain, any::<bool>(), any::<u8>()).prop_map(|(mode, running, items, same_instant, sched)| C10Case {
+		3 => (0u8..3, any::<bool>(), plain, any::<bool>(), any::<u8>(), proptest::bool::weighted(0.35)).prop_map(|(mode, running, items, same_instant, sched, exit_in_gate)| C10Case {
 			mode,
 			running: running || mode == 2,
 			items: if mode == 2 { items.into_iter().filter(|i| *i != Item::DeleteNow).collect() } else { items },
 			same_instant,
 			sched,
+			exit_in_gate,
 		}),
 		2 => (hon, any::<bool>(), any::<u8>()).prop_map(|((items, with_stop), same_instant, sched)| C10Case {
 			mode: 0,
@@ -309,6 +317,7 @@ fn strategy() -> BoxedStrategy<C10Case> {
 			items,
 			same_instant,
 			sched,
+			exit_in_gate: false,
 		}),
 	]
 	.boxed()
@@ -574,7 +583,7 @@ pub fn check(e: &Engine) {
 		"ordering",
 		LegOpts::det(
 			e.tier.pick(10_000, 200_000),
-			"bursts of 3-30 controls (run markers, to_wait, optional delete_now; start/stop+start vs to_wait scenarios) sent to a gated, parked or grace-timer-armed job, in one instant or 1 ms apart; non-trivial = >=2 priorities and >=3 controls",
+			"bursts of 3-30 controls (run markers, to_wait, optional delete_now; start/stop+start vs to_wait scenarios) sent to a gated (in a third of those cases the process exits during the gate, so its exit and the pending controls are taken up at the same instant), parked or grace-timer-armed job, in one instant or 1 ms apart; non-trivial = >=2 priorities and >=3 controls",
 		),
 		&strategy,
 		&run,
